@@ -64,6 +64,37 @@ def _single_assigns(stmts):
     return out, dup
 
 
+def stmt_kinds(stmts):
+    return [type(s).__name__ for s in stmts]
+
+
+def only_statements(fn_name, stmts, allowed_expr_calls=(), **limits):
+    """refuse statements of a kind (or in a number) the lifted shape does not have, at any nesting depth:
+    limits = maximal count per statement kind, e.g. If=1, For=2; Expr statements must call one of allowed_expr_calls"""
+    counts = {}
+
+    def walk(ss):
+        for s in ss:
+            k = type(s).__name__
+            counts[k] = counts.get(k, 0) + 1
+            if isinstance(s, ast.Expr):
+                c = s.value
+                nm = ast.unparse(c.func) if isinstance(c, ast.Call) else None
+                if nm not in allowed_expr_calls:
+                    raise U(f"{fn_name}: unexpected statement `{ast.unparse(s)[:60]}`")
+            for f in ("body", "orelse"):
+                if hasattr(s, f):
+                    walk(getattr(s, f))
+            if hasattr(s, "finalbody") or hasattr(s, "handlers"):
+                raise U(f"{fn_name}: try statement")
+    walk(stmts)
+    for k, n in counts.items():
+        if k == "Expr":
+            continue
+        if n > limits.get(k, 0):
+            raise U(f"{fn_name}: {n} `{k}` statements, the known shape has at most {limits.get(k, 0)}")
+
+
 def _np_inf(n):
     """+1 for np.inf, -1 for -np.inf, None otherwise"""
     def is_inf(m):
@@ -363,6 +394,8 @@ def _indices(tree):
 def _sweep(tree):
     fn = _find_func(tree, "_calculate_tradeoff_points")
     body = _body(fn)
+    only_statements("_calculate_tradeoff_points", body, allowed_expr_calls=("scores.append", "labels.append", "x_list.append",
+                    "y_list.append", "operation_list.append"), Assign=14, AugAssign=2, If=3, While=2, For=1, Raise=1, Return=1)
     names = {}
     # scores, labels, n, n_positive, n_negative = _get_scores_labels_and_counts(data)
     first = body[0]
@@ -662,7 +695,7 @@ def lift_tradeoff(repo):
     L = ["/-\nGENERATED by harness/lifters/tradeoff.py from\n  " + TCU +
          "\nDo not edit: rewritten on every run from the tree under check.\n-/\nset_option linter.unusedVariables false\n", "namespace TradeoffSrc\n"]
     L.append("/-! ### `_filter_points_to_get_convex_hull` -/")
-    L.append(f"/-- source: `{h['test_src']}` (r1 = stack[-{h['r1_back']}], r0 = stack[-{h['r0_back']}], r2 = the new point) -/")
+    L.append(f"/-- the turn test (r1 = stack[-{h['r1_back']}], r0 = stack[-{h['r0_back']}], r2 = the new point); true = drop r1 -/")
     L.append(f"def hullDrop (r0x r0y r1x r1y r2x r2y : Rat) : Bool :=\n  {h['test']}")
     L.append(f"/-- `while len(selected) >= {h['min_len']}` -/\ndef hullMinLen : Nat := {h['min_len']}")
     L.append(f"def hullR1Back : Nat := {h['r1_back']}\ndef hullR0Back : Nat := {h['r0_back']}")
